@@ -1,3 +1,4 @@
+#include <utility>
 #include <cstring>
 
 #include <occa/defines.hpp>
@@ -33,8 +34,13 @@ namespace occa {
   }
 
   json& json::operator = (const json &j) {
-    type = j.type;
-    value_ = j.value_;
+    // [j] may be a child of this value: j["b"] = j["b/a"]
+    // Copy it before the children of this value are destroyed
+    const type_t newType = j.type;
+    jsonValue_t newValue(j.value_);
+
+    type = newType;
+    std::swap(value_, newValue);
     return *this;
   }
 
